@@ -14,7 +14,8 @@
 //   - 8 keep-alive clients send requests with a per-client sequence number in the X-Id header
 //     (printed by the log format, part of the path of an error request); a burst runs ACROSS
 //     every operation (some of its requests sleep in the handler so that the old instance of a
-//     reload drains while the new one serves) and another one after it.
+//     reload drains while the new one serves; most of them go to a path the log directives
+//     except, a bounded number is logged: see runHistory) and another one after it.
 //   - Observed: every response (status, the generation that answered: a `header` directive), every
 //     entry in the current file and all backups (gunzipped when rotate_compress is on), the
 //     descriptors of this process naming the files (/proc/self/fd), the result of every operation.
@@ -102,6 +103,7 @@ type event map[string]interface{}
 type respInfo struct {
 	gen, site int
 	err       bool
+	quiet     bool // a request under the path every log directive excepts: no entry anywhere
 	status    int
 }
 
@@ -142,8 +144,10 @@ type world struct {
 	events   []event
 	problems []problem
 	tr       int
-	ambig    string // the trace cannot be written unambiguously (never a verdict)
-	selfDrop bool   // --selftest: hide one found entry from the comparison
+	ambig    string            // the trace cannot be written unambiguously (never a verdict)
+	selfDrop bool              // --selftest: hide one found entry from the comparison
+	fails    int64             // requests sent in the current phase whose connection died before the response
+	prevTail map[string]string // per file: the last entry of the current file at the previous observation
 }
 
 type problem struct {
@@ -176,9 +180,15 @@ func (w *world) sinkFile(f string, rel bool) string {
 
 func (w *world) rotateBlock(sk sink) string {
 	if isRaw(sk.File) {
+		if sk.Kind == "log" {
+			return "\t\trotate_disable\n\t\texcept /quiet\n"
+		}
 		return "\t\trotate_disable\n"
 	}
 	s := fmt.Sprintf("\t\trotate_size %d\n\t\trotate_keep %d\n", sk.Size, sk.Keep)
+	if sk.Kind == "log" {
+		s += "\t\texcept /quiet\n"
+	}
 	if w.compress {
 		s += "\t\trotate_compress\n"
 	}
@@ -265,6 +275,8 @@ func armSignals() {
 	})
 }
 
+var errHang = fmt.Errorf("the operation did not return")
+
 // reloadBySignal sends SIGUSR1 to this process and waits for the reload the handler runs.
 func (w *world) reloadBySignal(in casket.Input) (*casket.Instance, error) {
 	old := w.inst
@@ -282,7 +294,7 @@ func (w *world) reloadBySignal(in casket.Input) (*casket.Instance, error) {
 			return old, fmt.Errorf("reload by SIGUSR1 failed")
 		}
 	case <-time.After(30 * time.Second):
-		return old, fmt.Errorf("reload by SIGUSR1 did not finish")
+		return old, errHang
 	}
 	for i := 0; i < 20000; i++ {
 		if l := casket.Instances(); len(l) == 1 && l[0] != old {
@@ -338,7 +350,7 @@ func (w *world) weightOf(cfgs []string, site int, isErr bool) int {
 // startBurst sends `total` requests from the clients to the given sites (0-based); errSites may be
 // sent requests that fail in the handler (an error-log entry); slow = every so-manyth request sleeps
 // in the handler; giveUp = a refused connection ends the client's share (the instance is being stopped).
-func (w *world) startBurst(cfgs []string, total int, sites []int, errSites map[int]bool, slowEvery, slowMs int, giveUp bool) *burst {
+func (w *world) startBurst(cfgs []string, total, maxLog int, sites []int, errSites map[int]bool, slowEvery, slowMs int, giveUp bool) *burst {
 	b := &burst{}
 	var ticket int64
 	for c := 0; c < w.nClients; c++ {
@@ -357,15 +369,23 @@ func (w *world) startBurst(cfgs []string, total int, sites []int, errSites map[i
 					return
 				}
 				site := sites[(n+c)%len(sites)]
-				w.tick(w.weightOf(cfgs, site, errSites[site] && n%3 == 0))
+				// maxLog of the requests, evenly spread, are logged; the others go to /quiet/, which every
+				// log directive excepts: they keep the connections busy and leave nothing in the files
+				quiet := n*maxLog/total == (n-1)*maxLog/total
+				if !quiet {
+					w.tick(w.weightOf(cfgs, site, errSites[site] && n%3 == 0))
+				}
 				w.mu.Lock()
 				w.seq[c]++
 				id := fmt.Sprintf("c%02d-q%05d", c, w.seq[c])
 				w.mu.Unlock()
-				isErr := errSites[site] && n%3 == 0
+				isErr := errSites[site] && n%3 == 0 && !quiet
 				slow := slowEvery > 0 && n%slowEvery == 0
 				addr := fmt.Sprintf("127.0.0.1:%d", w.ports[site])
 				target := "/n/" + id
+				if quiet {
+					target = "/quiet/" + id
+				}
 				hdr := []string{"X-Id: " + id}
 				if isErr {
 					// "[ERROR 500 " + path + "] probe error\n" has the fixed entry length
@@ -396,6 +416,9 @@ func (w *world) startBurst(cfgs []string, total int, sites []int, errSites map[i
 					}
 					r, err := rc.Get("GET", target, addr, hdr...)
 					if err != nil {
+						if !quiet {
+							atomic.AddInt64(&w.fails, 1) // sent, fate unknown: it may have been handled and logged
+						}
 						rc.Close()
 						delete(conns, site)
 						if time.Now().After(deadline) {
@@ -405,7 +428,7 @@ func (w *world) startBurst(cfgs []string, total int, sites []int, errSites map[i
 					}
 					gen, _ := strconv.Atoi(r.Header.Get("X-Gen"))
 					w.mu.Lock()
-					w.resp[id] = respInfo{gen: gen, site: site, err: isErr, status: r.Status}
+					w.resp[id] = respInfo{gen: gen, site: site, err: isErr, quiet: quiet, status: r.Status}
 					w.mu.Unlock()
 					atomic.AddInt64(&b.done, 1)
 					break
@@ -631,7 +654,7 @@ func (w *world) observe() map[string]*fileObs {
 // request answered by generation gen on a site.
 func (w *world) expectedSinks(ri respInfo) []int {
 	cfg, ok := w.genCfg[ri.gen]
-	if !ok || ri.site >= len(w.h.Table[cfg]) {
+	if !ok || ri.quiet || ri.site >= len(w.h.Table[cfg]) {
 		return nil
 	}
 	var out []int
@@ -730,6 +753,32 @@ func (w *world) account(final bool) {
 				}
 			}
 		}
+		// Was anything removed by the mill that no observation has seen?  Not if the last entry of
+		// the previous observation is still there (the mill removes the oldest first).  If it is gone
+		// AND a request of this phase lost its connection after it was sent, that request may have
+		// been handled and its entry removed unseen: the number of writes is not known, the trace
+		// of this history is not written (never a verdict)
+		tailKey := func(r rec) string { return fmt.Sprintf("%s|%d|%d|%d|%v", r.id, r.g, r.s, r.i, r.errlog) }
+		if pt := w.prevTail[f]; pt != "" && !isRaw(f) {
+			still := false
+			for _, part := range o.chain {
+				for _, r := range part {
+					if tailKey(r) == pt {
+						still = true
+					}
+				}
+			}
+			if !still && atomic.LoadInt64(&w.fails) > 0 {
+				w.ambig = fmt.Sprintf("%s: backups were removed unseen in a phase in which %d requests lost their connection after they were sent", f, atomic.LoadInt64(&w.fails))
+			}
+		}
+		if c := o.chain[len(o.chain)-1]; len(c) > 0 {
+			w.prevTail[f] = tailKey(c[len(c)-1])
+		} else if len(o.chain) > 1 {
+			if b := o.chain[len(o.chain)-2]; len(b) > 0 {
+				w.prevTail[f] = tailKey(b[len(b)-1])
+			}
+		}
 		// the order across the physical files: a client's entries in a later file are later ones
 		lastOf := map[int]int{}
 		for ci, part := range o.chain {
@@ -821,6 +870,7 @@ func (w *world) account(final bool) {
 		w.emit(e)
 	}
 	w.emit(event{"ev": "obs", "final": final, "files": files})
+	atomic.StoreInt64(&w.fails, 0)
 }
 
 // ------------------------------------------------------------------------------- one history
@@ -853,7 +903,7 @@ func runHistory(t *testing.T, h hcase, seed int64, tr int, selfDrop bool) outcom
 	}
 	w := &world{h: h, B: B, dir: dir, cwd: cwd, files: map[string]string{}, rnd: rand.New(rand.NewSource(seed)), nClients: 8,
 		genCfg: map[int]string{}, resp: map[string]respInfo{}, retried: map[string]bool{}, seen: map[string]bool{},
-		cache: map[string][]rec{}, sigDone: make(chan string, 1), tr: tr, selfDrop: selfDrop}
+		cache: map[string][]rec{}, sigDone: make(chan string, 1), tr: tr, selfDrop: selfDrop, prevTail: map[string]string{}}
 	w.seq = make([]int, w.nClients)
 	for _, f := range fileNames {
 		w.files[f] = filepath.Join(dir, f+".log")
@@ -942,7 +992,22 @@ func runHistory(t *testing.T, h hcase, seed int64, tr int, selfDrop bool) outcom
 			if h.Grace {
 				slowMs = 200
 			}
-			during = w.startBurst(cfgs, burstSize(), sites, errs, 5, slowMs, o.T == "stop")
+			// The burst across an operation adds at most one file's worth of entries to any file, so
+			// that at most one rotation falls into it and no backup is removed before it was seen:
+			// requests of this burst lose their connections (the old instance closes them) and what
+			// became of such a request is only known from the files.  The burst after the
+			// operation, where every request is answered, is the one with several rotations.
+			maxW := 1
+			for _, s := range sites {
+				if x := w.weightOf(cfgs, s, errs[s]); x > maxW {
+					maxW = x
+				}
+			}
+			n := h.CapUnit/maxW - 2 - w.rnd.Intn(2)
+			if n < 2 {
+				n = 2
+			}
+			during = w.startBurst(cfgs, 3*burstSize(), n, sites, errs, 4, slowMs, o.T == "stop")
 			// let it get under way
 			for i := 0; i < 2000 && atomic.LoadInt64(&during.done) < 3; i++ {
 				time.Sleep(100 * time.Microsecond)
@@ -950,46 +1015,80 @@ func runHistory(t *testing.T, h hcase, seed int64, tr int, selfDrop bool) outcom
 		}
 		w.emit(event{"ev": "call", "op": event{"t": o.T, "c": o.C, "f": o.F}})
 		var opErr error
-		switch o.T {
-		case "stop":
-			w.inst.Stop()
-			w.inst.ShutdownCallbacks()
-			w.inst = nil
-		default:
-			w.ngen++
-			gen := w.ngen
-			in := input(w.config(gen, o.C, o.F))
-			if o.F != "early" {
-				w.genCfg[gen] = o.C
-			}
-			var ni *casket.Instance
+		opInfra := ""
+		opDone := make(chan struct{})
+		go func() {
+			defer close(opDone)
 			switch o.T {
-			case "start":
-				sigInput.Store(in)
-				loaded, lerr := casket.LoadCasketfile("http") // records the loader SIGUSR1 reloads will use
-				if lerr != nil || loaded == nil {
-					return outcome{infra: fmt.Sprintf("LoadCasketfile: %v", lerr)}
-				}
-				ni, opErr = casket.Start(loaded)
-				if opErr != nil {
-					ni = nil
-				}
-			case "reload":
-				ni, opErr = w.inst.Restart(in)
-			case "usr1":
-				ni, opErr = w.reloadBySignal(in)
-			}
-			if opErr == nil {
-				w.inst, w.curGen = ni, gen
-				if o.F != "none" {
-					// (TLC would reject the trace at `ret`; the rest of the history has no meaning)
-					w.bad("op-result", "operation %d (%s %s) was scripted to fail at stage %s and succeeded", oi+1, o.T, o.C, o.F)
+			case "stop":
+				w.inst.Stop()
+				w.inst.ShutdownCallbacks()
+				w.inst = nil
+			default:
+				w.ngen++
+				gen := w.ngen
+				in := input(w.config(gen, o.C, o.F))
+				if o.F != "early" {
 					w.genCfg[gen] = o.C
 				}
+				var ni *casket.Instance
+				switch o.T {
+				case "start":
+					sigInput.Store(in)
+					loaded, lerr := casket.LoadCasketfile("http") // records the loader SIGUSR1 reloads will use
+					if lerr != nil || loaded == nil {
+						opInfra = fmt.Sprintf("LoadCasketfile: %v", lerr)
+						return
+					}
+					ni, opErr = casket.Start(loaded)
+					if opErr != nil {
+						ni = nil
+					}
+				case "reload":
+					ni, opErr = w.inst.Restart(in)
+				case "usr1":
+					ni, opErr = w.reloadBySignal(in)
+				}
+				if opErr == nil {
+					w.inst, w.curGen = ni, gen
+					if o.F != "none" {
+						// (TLC would reject the trace at `ret`; the rest of the history has no meaning)
+						w.bad("op-result", "operation %d (%s %s) was scripted to fail at stage %s and succeeded", oi+1, o.T, o.C, o.F)
+						w.genCfg[gen] = o.C
+					}
+				}
+				if opErr == errHang {
+					opInfra = "a reload by SIGUSR1 did not finish within 30 s"
+				} else if oi == 0 && opErr != nil {
+					opInfra = fmt.Sprintf("the first start failed: %v", opErr)
+				}
 			}
-			if oi == 0 && opErr != nil {
-				return outcome{infra: fmt.Sprintf("the first start failed: %v", opErr)}
+		}()
+		// the watchdog: an operation that has not returned after 200 ms gets a connection per site
+		// every 100 ms (a reload of an idle instance can wait for the next connection to arrive:
+		// known finding C16 call-blocked); one that has not returned after 90 s is the harness's
+		// trouble, not a verdict
+		began := time.Now()
+	wait:
+		for {
+			select {
+			case <-opDone:
+				break wait
+			case <-time.After(100 * time.Millisecond):
+				if time.Since(began) > 90*time.Second {
+					return outcome{infra: fmt.Sprintf("operation %d (%s %s) of %s did not return within 90 s", oi+1, o.T, o.C, h.key())}
+				}
+				if time.Since(began) > 200*time.Millisecond {
+					for _, p := range w.ports {
+						if c, err := net.DialTimeout("tcp", fmt.Sprintf("127.0.0.1:%d", p), time.Second); err == nil {
+							c.Close()
+						}
+					}
+				}
 			}
+		}
+		if opInfra != "" {
+			return outcome{infra: opInfra}
 		}
 		if during != nil {
 			during.wg.Wait()
@@ -1006,7 +1105,8 @@ func runHistory(t *testing.T, h hcase, seed int64, tr int, selfDrop bool) outcom
 		w.emit(obsEv)
 		if w.inst != nil {
 			sites, errs := sitesOf(w.genCfg[w.curGen])
-			after := w.startBurst([]string{w.genCfg[w.curGen]}, burstSize(), sites, errs, 0, 0, false)
+			nb := burstSize()
+			after := w.startBurst([]string{w.genCfg[w.curGen]}, nb, nb, sites, errs, 0, 0, false)
 			after.wg.Wait()
 		}
 		w.account(oi == len(ops)-1)
@@ -1096,8 +1196,18 @@ func TestCx20LogSink(t *testing.T) {
 	ntr, nreq, nretried, nambig := 0, 0, 0, 0
 	rnd := hx.Rand()
 	var selfTrace []event
+	// on a machine that is much slower than usual the histories that do not fit into the time the
+	// driver gives this test are left out (counted), rather than the test being killed
+	began, budget, skipped := time.Now(), 150*time.Second, 0
+	if hx.Thorough() {
+		budget = 500 * time.Second
+	}
 	for ci, h := range cases {
 		seed := rnd.Int63()
+		if time.Since(began) > budget {
+			skipped++
+			continue
+		}
 		out := runHistory(t, h, seed, ci+1, false)
 		if out.infra != "" {
 			res.Infra = "history " + h.key() + ": " + out.infra
@@ -1143,6 +1253,9 @@ func TestCx20LogSink(t *testing.T) {
 	res.AddExtra("logsink_requests", nreq)
 	res.AddExtra("logsink_requests_sent_again", nretried)
 	res.AddExtra("logsink_histories", len(cases))
+	if skipped > 0 {
+		res.AddExtra("logsink_histories_left_out_for_time", skipped)
+	}
 	res.AddExtra("logsink_traces_not_written_ambiguous", nambig)
 	tw.Close()
 	if ntr > 0 {
